@@ -59,3 +59,5 @@
 ; hint(t): always true; lets a contract mention a term so that quantifier instantiation can see it
 (declare-fun hint (Str) Bool)
 (assert (forall ((x Str)) (! (hint x) :pattern ((hint x)))))
+(declare-fun hintI (Int) Bool)
+(assert (forall ((x Int)) (! (hintI x) :pattern ((hintI x)))))
